@@ -50,6 +50,10 @@ func New() *Match {
 // AddQuery registers a client callback for all matching nodes. It returns a
 // callback to remove the query.  The remove function is idempotent.
 func (m *Match) AddQuery(query []string, client Client) (remove func()) {
+	// The remove function outlives this call: keep a private copy of query so
+	// that a caller reusing the slice's backing array cannot change what is
+	// removed later.
+	query = append([]string(nil), query...)
 	defer m.mu.Unlock()
 	m.mu.Lock()
 	m.tree.addQuery(query, client)
